@@ -5,7 +5,7 @@ Tie: one operation per case, run on the extracted model and on the library (exac
 vectors); the driver also checks every library result against its own schoolbook GF(p)[x]."""
 import vlib
 
-PROOF_MODULES = []      # C23 files are not in coq/_CoqProject yet: compiled directly, in the order ORDER
+PROOF_MODULES = ["C23/GFProofs.vo"]
 ORDER = ["C23/GFPolyDefs.v", "C23/GFPolyLemmas.v", "C23/GFModel.v", "C23/GFSpec.v", "C23/GFArith.v",
          "C23/GFProofsRing.v", "C23/GFProofsDiv.v", "C23/GFProofsGcd.v", "C23/GFProofs.v"]
 OBLIGATIONS = ["C23/P_%s.v" % n for n in (
